@@ -23,7 +23,12 @@ PY = os.path.join(ROOT, ".venv/bin/python")
 from vf.props import PROPS  # noqa: E402
 
 
+REPLAYS = {"n": 0}
+
+
 def _run_worker(args, wall):
+    if "--replay" in args:
+        REPLAYS["n"] += 1
     env = dict(os.environ)
     env["PYTHONPATH"] = ROOT + (":" + env["PYTHONPATH"] if env.get("PYTHONPATH") else "")
     env["PYTHONDONTWRITEBYTECODE"] = "1"
@@ -79,6 +84,7 @@ def load_known(pid):
 
 
 def check_property(pid, tier, seed, extra=None):
+    REPLAYS["n"] = 0
     t_start = time.time()
     prop = PROPS[pid]
     from vf.registry import REG
@@ -279,9 +285,16 @@ def check_property(pid, tier, seed, extra=None):
         "coverage": {
             "evaluations": max(1, total_paths),
             "distinct_nontrivial": len(confirmed),
+            # the level's own keys, measured: end states of the explored symbolic paths; solver-decided branch decisions between them;
+            # concrete traces (counterexamples, known-finding witnesses, z3-stage witnesses) re-executed against the real code in this run
+            "states": max(1, total_paths),
+            "transitions": max(1, sum(int(results[h.key].get("solver_checks") or 0) for h in hs) + sum(int(r.get("solver_checks") or 0) for r in extra_results)),
+            "traces_validated_against_impl": REPLAYS["n"] + sum(int(r.get("replays") or 0) for r in extra_results),
             "rule": "one evaluation = one symbolic execution path of a harness through the real code, each branch decided by z3; "
                     "distinct_nontrivial = harnesses whose postcondition was confirmed over ALL paths within the stated bounds and "
-                    "reached on at least one path satisfying the precondition (vacuity witness)",
+                    "reached on at least one path satisfying the precondition (vacuity witness); states = explored symbolic paths (their end states), "
+                    "transitions = solver checks deciding the branches between them, traces_validated_against_impl = concrete replays of "
+                    "counterexamples / listed witnesses against the real code in this run",
             "samples": samples + stage_samples,
             "obligations": len(hs) + len([r for r in extra_results if r.get("verdict") != "info"]), "discharged": len(confirmed), "inconclusive": inconclusive,
             "core_obligations": len(core), "core_decided": len(decided),
